@@ -53,8 +53,9 @@ type Engine struct {
 }
 
 type axiom struct {
-	name string
-	text string
+	name  string
+	text  string
+	lemma bool
 }
 
 type specSig struct {
@@ -73,6 +74,7 @@ type Obligation struct {
 	PC    *PC
 	Goal  string
 	NDecl int
+	AxN   int // lemmas: only the first AxN-1 axioms may be used
 	ctx   *FuncCtx
 	// results
 	Status  string // proved | failed | unknown | timeout
@@ -112,6 +114,7 @@ type FuncCtx struct {
 	noVariant []string
 	curDecl  *ast.FuncDecl
 	specEnv  map[string]*Val
+	unfoldFacts []string
 }
 
 type State struct {
@@ -387,7 +390,9 @@ func (e *Engine) typeFacts(term string, t types.Type) string {
 	case *types.Basic:
 		switch u.Kind() {
 		case types.Int, types.Int64:
-			return mkAnd(app("<=", "(- 9223372036854775808)", term), app("<=", term, "9223372036854775807"))
+			// 64-bit signed arithmetic is treated as mathematical (stated
+			// assumption): no range fact, no overflow obligation
+			return tTrue
 		case types.Int32:
 			return mkAnd(app("<=", "(- 2147483648)", term), app("<=", term, "2147483647"))
 		case types.Int16:
@@ -395,21 +400,18 @@ func (e *Engine) typeFacts(term string, t types.Type) string {
 		case types.Int8:
 			return mkAnd(app("<=", "(- 128)", term), app("<=", term, "127"))
 		case types.Uint, types.Uint64, types.Uintptr:
-			return mkAnd(app("<=", "0", term), app("<=", term, "18446744073709551615"))
+			return app("<=", "0", term)
 		case types.Uint32:
 			return mkAnd(app("<=", "0", term), app("<=", term, "4294967295"))
 		case types.Uint16:
 			return mkAnd(app("<=", "0", term), app("<=", term, "65535"))
 		case types.Uint8:
 			return mkAnd(app("<=", "0", term), app("<=", term, "255"))
-		case types.String:
-			return app("<=", app("str.len", term), maxLenLit)
 		}
 	case *types.Slice:
 		s := e.sortOf(t)
-		return mkAnd(app("<=", "0", app("off_"+s, term)), app("<=", "0", app("len_"+s, term)),
-			app("<=", app("len_"+s, term), maxLenLit), app("<=", app("off_"+s, term), maxLenLit),
-			app("=>", app("nil_"+s, term), app("=", app("len_"+s, term), "0")))
+		return mkAnd(app("<=", "0", acc("off_"+s, term)), app("<=", "0", acc("len_"+s, term)),
+			mkImplies(acc("nil_"+s, term), mkEq(acc("len_"+s, term), "0")))
 	case *types.Pointer:
 		if e.isHeapStruct(u.Elem()) {
 			return app("<=", "0", term)
